@@ -658,11 +658,96 @@ func keys(m map[int]bool) []string {
 	return out
 }
 
+// ------------------------------------------------------------------ many clusters (names as an input)
+// The histories above use two clusters; whatever partitions cached results by a function of the cluster's name
+// (a hash, a prefix, a fold) isolates two hand-picked names and still shares between others. Here 48 clusters with
+// realistic names take part; for every ordered pair (home, other): home allows what every other cluster refuses,
+// the same user asks home first and other second, and other's answer has to be one that other itself gave, after
+// exactly one review sent to other. Same for tokens. Runs as a stateless enumeration over the real webhooks.
+
+func clusterNames() []string {
+	var out []string
+	for i := 0; i < 40; i++ {
+		out = append(out, fmt.Sprintf("cluster-%d.example.com", i))
+	}
+	return append(out, "a", "b", "prod", "staging", "prod.example.com:6443", "PROD.example.com", "kube-apiserver.kube-system.svc", "10.0.0.1")
+}
+
+func manyClusters(c *ev.Check) {
+	names := clusterNames()
+	for _, ttl := range []time.Duration{0, time.Hour} {
+		for hi, home := range names {
+			yield := false
+			p := &provider{hosts: map[string]*stubCluster{}}
+			var all []*stubCluster
+			for _, n := range names {
+				sc := newStubCluster(n, &yield)
+				sc.authn["t1"] = "reject"
+				sc.authz[sarKey("alice", "impersonate", "users")] = "deny"
+				p.hosts[strings.ToLower(n)] = sc
+				all = append(all, sc)
+			}
+			all[hi].authn["t1"] = "ok"
+			all[hi].authz[sarKey("alice", "impersonate", "users")] = "allow"
+			authn := tokenwebhook.NewMultiClusterTokenReviewAuthenticator(p, ttl, ttl, nil)
+			authz := sarwebhook.NewMultiClusterSubjectAccessReviewAuthorizer(p, ttl, ttl)
+			attr := authorizer.AttributesRecord{User: &user.DefaultInfo{Name: "alice"}, Verb: "impersonate", Resource: "users", ResourceRequest: true}
+			ask := func(sc *stubCluster, round int) {
+				replay := map[string]interface{}{"task": "many-clusters", "ttl": ttl.String(), "home": home, "asked": sc.name, "round": round}
+				before := len(sc.calls)
+				d, reason, err := authz.Authorize(ctxFor(sc.name), attr)
+				c.Add("transitions", 1)
+				wantD := authorizer.DecisionDeny
+				if sc == all[hi] {
+					wantD = authorizer.DecisionAllow
+				}
+				if err != nil || d != wantD || reason != "by "+sc.name {
+					c.Violation("many-clusters/authz/foreign-decision", fmt.Sprintf("among %d clusters, after %q allowed alice to impersonate users, the same request for %q got decision %v reason %q err %v (its own cluster answers %v, reason %q)", len(names), home, sc.name, d, reason, err, wantD, "by "+sc.name), replay)
+					return
+				}
+				if sent := len(sc.calls) - before; (round == 0 || ttl == 0) && sent != 1 {
+					c.Violation("many-clusters/authz/review-not-sent-to-own-cluster", fmt.Sprintf("the first request for %q sent %d SubjectAccessReviews to it, not 1", sc.name, sent), replay)
+					return
+				}
+				before = len(sc.calls)
+				resp, ok, err := authn.AuthenticateToken(ctxFor(sc.name), "t1")
+				c.Add("transitions", 1)
+				if sc == all[hi] {
+					if !ok || resp == nil || resp.User.GetName() != "user-of-"+sc.name {
+						c.Violation("many-clusters/authn/foreign-result", fmt.Sprintf("token t1 for its own cluster %q: ok=%v resp=%v err=%v", sc.name, ok, resp, err), replay)
+						return
+					}
+				} else if ok || resp != nil {
+					c.Violation("many-clusters/authn/foreign-result", fmt.Sprintf("among %d clusters, after %q accepted token t1, the same token for %q (which rejects it) was accepted as %v", len(names), home, sc.name, resp), replay)
+					return
+				}
+				if sent := len(sc.calls) - before; (round == 0 || ttl == 0) && sent != 1 {
+					c.Violation("many-clusters/authn/review-not-sent-to-own-cluster", fmt.Sprintf("the first token for %q sent %d TokenReviews to it, not 1", sc.name, sent), replay)
+				}
+			}
+			for round := 0; round < 2; round++ {
+				ask(all[hi], round)
+				for _, sc := range all {
+					if sc != all[hi] {
+						ask(sc, round)
+					}
+				}
+			}
+			for _, sc := range all {
+				sc.ci.Stop()
+			}
+			c.Add("states", int64(len(names)))
+		}
+	}
+	c.Add("many_cluster_pairs", int64(2*len(names)*(len(names)-1)))
+}
+
 func main() {
 	c := ev.Start("C12", "model_checking")
 	c.Assume = []string{
 		"the webhooks talk to a stub ClientProvider (host -> cluster, mutable) over two NewEmptyClusterInfo clusters with per-cluster fake clientsets whose TokenReview / SubjectAccessReview reactors answer from a table, log every call and stamp every answer with the cluster's name (user name / reason), so the origin of a result is observable",
 		"cache TTLs 0 and 1 h on the real clock (no expiry inside a run); a cached answer of the request's own cluster is allowed after that cluster changed its mind (TTL), an answer of another cluster never is",
+		"many-clusters: 48 cluster names (numbered domain names, short names, a name with a port, an upper-case name, a service name, an address); every ordered pair (home allows, other refuses; home asked first) at TTL 0 and 1 h, two rounds",
 		"engine A: tokenreview.go and subjectaccessreview.go instrumented (sync.Map operations, statements, channel waits); each review call is a schedule point before and after the call",
 	}
 	specs := []xstate.Spec{spec(0), spec(time.Hour), specReviewEndpoint()}
@@ -674,6 +759,7 @@ func main() {
 	tasks = append(tasks, xstate.Tasks(c, spec(0), c.Pick(3, 4), 13)...)
 	tasks = append(tasks, xstate.Tasks(c, spec(time.Hour), c.Pick(4, 5), 26)...)
 	tasks = append(tasks, xstate.Tasks(c, specReviewEndpoint(), c.Pick(4, 5), 13)...)
+	tasks = append(tasks, ev.Task{Name: "many-clusters", Run: func() { manyClusters(c) }})
 	bounds := []int{0, 1, 2}
 	if c.Thorough() {
 		bounds = []int{0, 1, 2, 3}
